@@ -89,9 +89,9 @@ def model(D, late_global=False, disturb=None):
                                 X.transition("id1", "id0", select="s2 : int[0, v + 3]", guard="v >= 1", assign="t0 = v"),
                                 X.transition("id1", "id1", guard="forall (qq : int[0, v + 4]) qq >= 0")])
     t2 = X.template("T2", decl="int[0,99] z = v;", locations=[X.location("id2", "M0", inv="v >= 2")], init="id2")   # other template
-    system = "int[0,99] sy = v;\nP = T(7%s);\nsystem P, T2;" % d("tparam", ", 1")
+    system = "int[0,99] sy = v;\nP = T(7%s);\nP2 = T(5%s);\nsystem P, P2, T2;" % (d("tparam", ", 1"), d("tparam", ", 1"))
     if late_global:
-        system = "int[0,99] sy = v;\nint[0,19] v;\nint[0,99] sy2 = v;\nP = T(7%s);\nsystem P, T2;" % d("tparam", ", 1")
+        system = "int[0,99] sy = v;\nint[0,19] v;\nint[0,99] sy2 = v;\nP = T(7%s);\nP2 = T(5%s);\nsystem P, P2, T2;" % (d("tparam", ", 1"), d("tparam", ", 1"))
     return X.nta(g, [t, t2], system)
 
 
@@ -318,6 +318,22 @@ def run_shard(arg):
         if qr.get("died"):
             engine.check_crash(part, PID, qr, "queries on " + key, rp)
             continue
+        # two processes of one template in one query: each member access carries its own process's arguments
+        for q2, order in (("E<> P.w >= 0 && P2.w >= 0", (7, 5)), ("E<> P2.w >= 0 && P.w >= 0", (5, 7)), ("E<> P.w + P2.w + P.w >= 0", (7, 5, 7))):
+            qr2 = w.call_safe({"op": "queries", "ctx": {"kind": "xml", "text": doc}, "items": [q2], "symtypes": True}, timeout=60)
+            part.count()
+            if qr2.get("died"):
+                engine.check_crash(part, PID, qr2, "query " + q2, rp)
+                continue
+            sx2 = qr2["results"][0].get("sexpr") or ""
+            got2 = tuple(int(x) for x in re.findall(r":w:\(RANGE \(INT\) <\(CONSTANT:INT 0\)> <\(CONSTANT:INT (\d+)\)>\)", sx2))
+            part.nontrivial_case(key + ":query:" + q2)
+            if got2 != order:
+                part.outcome("query-misbound")
+                part.violation("query:member-type-of-wrong-process:%s" % q2.split()[1], "`%s` with P = T(7), P2 = T(5): the members' ranges are %s, expected %s"
+                               % (q2, got2, order), {"op": "queries", "ctx": {"kind": "xml", "text": doc}, "items": [q2], "symtypes": True})
+            else:
+                part.outcome("query-bound")
         exp_q = {0: first(D, "global"), 1: first(D, "tlocal", "tparam"), 3: None}
         for qi, q in enumerate(qs):
             part.count()
